@@ -136,6 +136,9 @@ class H3(H2):
     d: str = field(metadata={"type": "Element"})
 
 
+from xml.etree.ElementTree import QName as _QName
+
+
 def _shape_model(name, hint, meta, default=None, factory=None, required=False):
     import dataclasses
 
@@ -165,6 +168,7 @@ SHAPE_MODELS = {
     "enum": _shape_model("KEnum", Optional[SColor], {"type": "Element"}),
     "hierarchy": _shape_model("KHierarchy", Optional[H0], {"type": "Element"}),
     "hierarchyList": _shape_model("KHierarchyList", List[H0], {"type": "Element"}, factory=list),
+    "qname": _shape_model("KQNameJ", Optional[_QName], {"type": "Element"}),
 }
 
 SHAPE_VALUES = {
@@ -173,6 +177,7 @@ SHAPE_VALUES = {
     "listOfLeafObj": [{"v": 1}, {"v": 2}], "listOfEmptyObj": [{}], "listOfNull": [None], "anyElementObj": {"qname": "q", "text": "t", "tail": None, "children": [], "attributes": {}},
     "derivedObj": {"qname": "q", "value": 5, "type": None}, "strDict": {"a": "1", "b": "2"}, "nestedList3": [[[1]]],
     "h0Obj": {"a": "p"}, "h1Obj": {"a": "p", "b": "q"}, "h2Obj": {"a": "p", "b": "q", "c": "r"}, "h3Obj": {"a": "p", "b": "q", "c": "r", "d": "s"},
+    "clarkStr": "{urn:q}n", "clarkBrokenStr": "{urn:q",
     "listOfHObjs": [{"a": "p", "b": "q", "c": "r"}, {"a": "p"}, {"a": "p", "b": "q", "c": "r", "d": "s"}, {"a": "p", "b": "q"}],
 }
 
